@@ -537,6 +537,14 @@ def make_middleware(world: "World", idx: int, spec: dict) -> TaskiqMiddleware:
                     return replaced(message) if replace else message
                 return None
             ahook.__name__ = hook
+            ret = hs.get("ret")
+            if ret in ("future", "lazy"):
+                # a plain (sync) method that returns an awaitable which is not a coroutine object: a Task, or a lazy awaitable
+                def fhook(self: Any, message: Any, *rest: Any) -> Any:
+                    coro = ahook(self, message, *rest)
+                    return asyncio.ensure_future(coro) if ret == "future" else _Lazy(coro)
+                fhook.__name__ = hook
+                return fhook
             return ahook
 
         def shook(self: Any, message: Any, *rest: Any) -> Any:
@@ -553,6 +561,16 @@ def make_middleware(world: "World", idx: int, spec: dict) -> TaskiqMiddleware:
         ns[hook] = build(hook, hs)
     cls = type(f"RecMW{idx}", (TaskiqMiddleware,), ns)
     return cls()
+
+
+class _Lazy:
+    """An awaitable that is neither a coroutine object nor a Future; nothing happens until it is awaited."""
+
+    def __init__(self, coro: Any) -> None:
+        self._coro = coro
+
+    def __await__(self) -> Any:
+        return self._coro.__await__()
 
 
 def _hook_args(hook: str, rest: tuple) -> Any:
@@ -598,6 +616,7 @@ class World:
         self.pending_sends = 0
         self.changed: Optional[asyncio.Event] = None
         self.never: List[Any] = []
+        self._own_tasks: List[Any] = []
         self.extra: Dict[str, Any] = {}
         self.ops_pending = 0
         self.probe_msgs: Dict[Any, dict] = {}
@@ -657,6 +676,11 @@ class World:
             return bool(self.spec_of(d.k).get("ackable", True))
         return bool(mode)
 
+    def keep(self, task: Any) -> Any:
+        """The harness holds a strong reference to every task it starts itself (asyncio only keeps weak ones)."""
+        self._own_tasks.append(task)
+        return task
+
     def make_ack(self, d: Delivery) -> Any:
         w = self
         spec = self.spec_of(d.k).get("ack", {})
@@ -675,6 +699,11 @@ class World:
                     await asyncio.sleep(delay / 1e6)
                 d.acked = True
                 w.rec("ack_done", d.id)
+            ret = spec.get("ret")
+            if ret in ("future", "lazy"):
+                def fack() -> Any:
+                    return asyncio.ensure_future(aack()) if ret == "future" else _Lazy(aack())
+                return fack
             return aack
 
         def ack() -> None:
@@ -726,6 +755,22 @@ def _sleep_us(us: int) -> Any:
 
 
 _real_sleep = asyncio.sleep
+
+
+def _weak_sleep(world: "World", us: int) -> Any:
+    """Wait for a reply that only the waiter itself references strongly: the future is resolved by a timer through a weak
+    reference (a connection object keeping its pending replies in a WeakValueDictionary). Nothing but the awaiting task keeps the
+    future alive, so the task must be strongly referenced by whoever started it - otherwise a garbage collection destroys it."""
+    import weakref
+    fut = world.loop.create_future()
+    ref = weakref.ref(fut)
+
+    def reply() -> None:
+        f = ref()
+        if f is not None and not f.done():
+            f.set_result(None)
+    world.loop.call_later_us(us, reply)
+    return fut
 
 
 def _resolver_ctx_ordinal(world: World, d: Any) -> Optional[int]:
@@ -918,6 +963,9 @@ def make_task_func(world: World, tspec: dict) -> Any:
                 return _SyncOutcome(dur, exc=EXC[out[1]](f"boom-{d}"))
             if out[0] == "nores":
                 return _SyncOutcome(dur, exc=NoResultError())
+            if out[0] == "reject":
+                from taskiq.exceptions import TaskRejectedError
+                return _SyncOutcome(dur, exc=TaskRejectedError())
             return _SyncOutcome(dur, value=retval(d))
     else:
         async def body(*args: Any, **kw: Any) -> Any:  # type: ignore[misc]
@@ -926,7 +974,7 @@ def make_task_func(world: World, tspec: dict) -> Any:
             try:
                 for us in beh.get("steps", []):
                     if us:
-                        await _sleep_us(us)
+                        await (_weak_sleep(world, us) if beh.get("weak_wait") else _sleep_us(us))
                     else:
                         await asyncio.sleep(0)
                 out = beh.get("out", ["ret"])
@@ -936,6 +984,9 @@ def make_task_func(world: World, tspec: dict) -> Any:
                 if out[0] == "nores":
                     how = "exc:NoResultError"
                     raise NoResultError
+                if out[0] == "reject":
+                    how = "exc:TaskRejectedError"
+                    kw["ctx"].reject()
                 if out[0] == "requeue":
                     how = "requeue"
                     world.fired("requeue")
@@ -1235,6 +1286,7 @@ def _run_cli_worker(world: World) -> None:
             no_propagate_errors=not cfg.get("propagate", True),
             ack_type=AcknowledgeType(cfg["ack_type"]) if cfg.get("ack_type") else AcknowledgeType.WHEN_SAVED,
             max_tasks_per_child=cfg.get("N"), wait_tasks_timeout=cfg.get("W"), shutdown_timeout=5, workers=1,
+            hardkill_count=cfg.get("hardkill_count", 3),
         )
         ctx.run(wr.start_listen, args)
     finally:
@@ -1326,6 +1378,14 @@ def do_stop(world: World, w: int) -> None:
     elif info.get("cli"):
         # `taskiq worker` child process: shutdown is requested by a signal; the real handler sets the shutdown event
         info["deliver_signal"](world.config.get("stop_signal", "SIGINT"))
+        # further signals (a terminal's Ctrl-C reaches the child directly and forwarded by the manager): up to hardkill_count + 1
+        # signals in total are a graceful shutdown request
+        for delay_us, name in world.config.get("extra_signals", []):
+            def again(name: str = name) -> None:
+                if not info.get("returned"):
+                    world.fired("repeated_stop_signal")
+                    info["deliver_signal"](name)
+            world.loop.call_later_us(delay_us, again, context=world.harness_ctx)
     else:
         info["finish"].set()
 
@@ -1459,7 +1519,7 @@ async def _main(world: World, client_fn: Any) -> None:
         world.pending_sends += 1
         loop.call_at_us(
             m.get("send_at_us", 0),
-            lambda m=m: loop.create_task(_send(world, client, m), context=cctx.copy()),
+            lambda m=m: world.keep(loop.create_task(_send(world, client, m), context=cctx.copy())),
             context=cctx,
         )
     if client_fn is not None:
@@ -1471,7 +1531,7 @@ async def _main(world: World, client_fn: Any) -> None:
             finally:
                 world.pending_sends -= 1
                 world.rec("send_done", None, k="client_fn")
-        loop.create_task(run_client(), context=cctx.copy())
+        world.keep(loop.create_task(run_client(), context=cctx.copy()))
     # tasks registered late (after the receivers exist), on the shared broker: visible to every broker through the global registry
     for lt in script.get("late_tasks", []):
         def register(lt: dict = lt) -> None:
@@ -1532,6 +1592,11 @@ def _arm_op(world: World, op: dict) -> None:
             do_crash(world, op.get("w", 0), op.get("redeliver_us", 1000))
         elif kind == "restart":
             do_restart(world, op.get("w", 0))
+        elif kind == "gc":
+            # a cyclic garbage collection at this instant (automatic collection is off during a run so that it happens only here)
+            import gc
+            world.fired("gc_collect")
+            gc.collect()
         elif kind == "add_late_mw":
             # broker.add_middlewares() on the running worker brokers: the retry middleware is installed after the workers have
             # already processed (and failed) messages
@@ -1582,4 +1647,4 @@ async def _run_probe(world: World, client: SimBroker, cctx: Any, probe: dict) ->
              "attempts": [{"steps": [probe.get("dur_us", 1_000_000)], "out": ["ret"]}]}
         world.probe_msgs[k] = m
         world.pending_sends += 1
-        world.loop.create_task(_send(world, client, m), context=cctx.copy())
+        world.keep(world.loop.create_task(_send(world, client, m), context=cctx.copy()))
